@@ -91,7 +91,7 @@ package sql
 //@ spec fn esc6(v string) string = replaceAll(esc5(v), "\t", "\\t")
 //@ spec fn esc7(v string) string = replaceAll(esc6(v), "\x1a", "\\x1a")
 //@ spec fn sqlEsc(v string) string = replaceAll(esc7(v), "'", "\\'")
-//@ func (*StringVal).String [C10]
+//@ func (*StringVal).String [C07,C10]
 //@   modifies nothing
 //@   ensures result1 == nil
 //@   ensures quoted-escaped: result0 == "'" + sqlEsc(s.val) + "'"
